@@ -157,8 +157,13 @@ def check_dialect(ctx: Ctx):
         d = (opts.get("delimiter", ","), opts.get("lineterminator", "\r\n"), opts.get("quoting", "default"), opts.get("quotechar", '"'), okw.get("newline", None), okw.get("encoding", None))
         dial.add(d)
     ctx.decide("R18.3", None, None, "csv:dialect-agreement", "all csv reader/writer sites and their open() calls use one delimiter, line terminator, quoting, newline and encoding", len(dial) == 1, {"dialects": [repr(x) for x in sorted(dial, key=repr)], "sites": [f"{q}:{k}" for (q, k, _) in sorted(uniq)]})
-    if len(uniq) < 4:
-        ctx.undecided("R18.3.floor", None, None, "floor:R18.3", f"{len(uniq)} csv sites observed, confirmed floor is 4")
+    # the comparison is vacuous unless it saw the row writer, the aggregator's own reader
+    # (continuation) and the statistics loader's reader
+    have_writer = any(k == "writer" for (_, k, _) in uniq)
+    have_loader = any(k == "reader" and q.startswith("panoptica_statistics") for (q, k, _) in uniq)
+    have_agg_reader = any(k == "reader" and q.startswith("panoptica_aggregator") for (q, k, _) in uniq)
+    if not (have_writer and have_loader and have_agg_reader):
+        ctx.undecided("R18.3.floor", None, None, "floor:R18.3", f"csv sites observed: {sorted((q, k) for (q, k, _) in uniq)}; need the row writer, the aggregator's reader and the loader's reader")
 
 
 def check_vocabulary(ctx: Ctx):
